@@ -187,7 +187,10 @@ def float_to_fix(signed, n_bits, n_frac):
         if value < 0:
             fp_val = (1 << n_bits) + int(value * 2**n_frac)
         else:
-            fp_val = int(value * 2**n_frac)
+            # NB: For formats wider than a float's mantissa max_v is rounded
+            # up, saturate again on the integer.
+            fp_val = min(int(value * 2**n_frac),
+                         (1 << (n_bits - 1 if signed else n_bits)) - 1)
 
         assert 0 <= fp_val < 1 << (n_bits + 1)
         return fp_val & mask
@@ -360,10 +363,18 @@ class NumpyFloatToFixConverter(object):
         # Saturate the values
         vals = np.clip(vals, self.min_value, self.max_value)
 
+        # NB: The largest value of a 64-bit format is not exactly representable
+        # as a float: the upper bound used above is then 2**63 (or 2**64) which
+        # overflows in the cast below. Cast such elements from zero and set
+        # them to the maximum afterwards.
+        at_max = vals >= self.max_value
+
         # **NOTE** for some reason just casting resulted in shape
         # being zeroed on some indeterminate selection of OSes,
         # architectures, Python and Numpy versions"
-        return np.array(vals, copy=True, dtype=self.dtype)
+        out = np.array(np.where(at_max, 0, vals), copy=True, dtype=self.dtype)
+        out[at_max] = self.max_value
+        return out
 
 
 class NumpyFixToFloatConverter(object):
